@@ -45,6 +45,7 @@ type deltaRow struct {
 	T     int        `json:"t"`
 	Out   []int      `json:"out"`
 	Term  bool       `json:"term"`
+	Order string     `json:"order"` // order of the copies: fwd | back | back-fwd (Delta.tla Order)
 }
 
 const deltaHuge = 1 << 30 // Delta.tla Huge (saturated header value)
@@ -381,13 +382,13 @@ func c06(args []string) error {
 					atomic.AddInt64(&spent[ai], int64(time.Since(t0)))
 					evals[i]++
 					c := map[string]any{"applier": ap.name, "src_len": row.S, "delta": hex.EncodeToString(delta), "spec_ok": row.Ok, "spec_why": row.Why,
-						"kinds": row.Kinds, "hdr_terminated": row.Term}
+						"kinds": row.Kinds, "order": row.Order, "hdr_terminated": row.Term}
 					if ap.name == "ParserNoStorage" && row.Ok && err == nil && pan == "" {
 						// judged by the object id the parser reports for the delta entry
 						h := blobHash(exp)
 						if !bytes.Equal(out, h[:]) {
 							c["gogit_id"] = hex.EncodeToString(out)
-							results[i] = append(results[i], div{ap.name + "|wrong-bytes|kinds=" + kindsKey(row.Kinds),
+							results[i] = append(results[i], div{ap.name + "|wrong-bytes|kinds=" + kindsKey(row.Kinds) + ",order=" + row.Order,
 								fmt.Sprintf("Parser (no storage) reports id %x, the bytes git produces have id %x: src[%d] delta %x", out, h, row.S, delta), c})
 						}
 						continue
@@ -412,7 +413,7 @@ func c06(args []string) error {
 					case row.Ok && !bytes.Equal(out, exp):
 						c["gogit_out"] = hexs(out)
 						c["spec_out"] = hexs(exp)
-						results[i] = append(results[i], div{ap.name + "|wrong-bytes|kinds=" + kindsKey(row.Kinds),
+						results[i] = append(results[i], div{ap.name + "|wrong-bytes|kinds=" + kindsKey(row.Kinds) + ",order=" + row.Order,
 							fmt.Sprintf("%s produces %s, spec/git %s: src[%d] delta %x", ap.name, hexs(out), hexs(exp), row.S, delta), c})
 					}
 				}
